@@ -38,6 +38,32 @@ fn main() {
             println!("{}", json!({"cases": cases.len(), "prop_mismatch": nprop, "model_drift": nmodel,
                                    "prop": prop, "model": model, "samples": samples}));
         }
+        ("replay", "accum") => {
+            let cases = load_cases(&args[3]);
+            let ids: Vec<String> = ["e1", "e2", "e4", "b3"].iter().map(|s| s.to_string()).collect();
+            let mut prop: Vec<Value> = vec![];
+            let mut nprop = 0usize;
+            for c in &cases {
+                let o = vh::accum::replay_one(c, &ids);
+                if !o.prop.is_empty() {
+                    nprop += 1;
+                    if prop.len() < 20 { prop.push(json!({"case": c, "why": o.prop})); }
+                }
+            }
+            let samples: Vec<&Value> = cases.iter().step_by((cases.len() / 3).max(1)).take(3).collect();
+            println!("{}", json!({"cases": cases.len(), "prop_mismatch": nprop, "model_drift": 0, "prop": prop, "model": [], "samples": samples}));
+        }
+        ("record", "accum") => {
+            let seed: u64 = args[3].parse().unwrap();
+            let runs: usize = args[4].parse().unwrap();
+            let ops: usize = args[5].parse().unwrap();
+            let mut rng = Rng::new(seed);
+            let mut ev = vec![];
+            for _ in 0..runs { vh::accum::record(&mut rng, ops, &mut ev); }
+            let mut f = std::io::BufWriter::new(std::fs::File::create(&args[6]).unwrap());
+            for e in &ev { writeln!(f, "{}", e).unwrap(); }
+            println!("{}", json!({"events": ev.len(), "runs": runs}));
+        }
         ("record", "erralg") => {
             let seed: u64 = args[3].parse().unwrap();
             let runs: usize = args[4].parse().unwrap();
